@@ -43,14 +43,46 @@ def _is_simple(e):
     return False
 
 
+_STABLE = set()
+
+
 def census(trees):
-    """name -> number of definitions (functions and methods) in the package"""
+    """name -> number of definitions (functions and methods) in the package.  Also records the attributes that are only ever
+    assigned as `self.<attr> = ...` inside an `__init__` (or never): no call can rebind those, so an alias of one stays valid
+    across calls."""
     cnt = {}
+    unstable = set()
+    for t in trees:
+        for fn in ast.walk(t):
+            if isinstance(fn, (ast.FunctionDef, ast.AsyncFunctionDef)):
+                cnt[fn.name] = cnt.get(fn.name, 0) + 1
+        for n in ast.walk(t):
+            if isinstance(n, ast.Call) and isinstance(n.func, ast.Name) and n.func.id in ("setattr", "delattr") and len(n.args) >= 2:
+                unstable.add(n.args[1].value if isinstance(n.args[1], ast.Constant) else "*")
+
+    def scan(node, in_init):
+        for ch in ast.iter_child_nodes(node):
+            if isinstance(ch, (ast.FunctionDef, ast.AsyncFunctionDef)):
+                scan(ch, ch.name == "__init__")
+                continue
+            if isinstance(ch, ast.Attribute) and isinstance(ch.ctx, (ast.Store, ast.Del)):
+                if not (in_init and isinstance(ch.value, ast.Name) and ch.value.id == "self"):
+                    unstable.add(ch.attr)
+            scan(ch, in_init)
+    for t in trees:
+        scan(t, False)
+    _STABLE.clear()
     for t in trees:
         for n in ast.walk(t):
-            if isinstance(n, (ast.FunctionDef, ast.AsyncFunctionDef)):
-                cnt[n.name] = cnt.get(n.name, 0) + 1
+            if isinstance(n, ast.Attribute) and n.attr not in unstable:
+                _STABLE.add(n.attr)
     return cnt
+
+
+def _has_dynamic_setattr(tree):
+    """setattr/delattr with a computed attribute name: in such a module (the facade) no attribute is taken to be stable"""
+    return any(isinstance(n, ast.Call) and isinstance(n.func, ast.Name) and n.func.id in ("setattr", "delattr") and len(n.args) >= 2
+               and not isinstance(n.args[1], ast.Constant) for n in ast.walk(tree))
 
 
 _ANCHORS = None
@@ -453,6 +485,8 @@ def _attr_path(e):
 
 
 _PURE_FUNCS = {"isinstance", "len", "hasattr", "callable", "type", "issubclass"}
+_SAFE_CALLS = _PURE_FUNCS | {"int", "str", "bool", "float", "max", "min", "abs", "range", "enumerate", "zip", "reversed", "sorted", "list", "tuple",
+                             "set", "dict", "print", "id", "repr", "sum", "any", "all", "Exception"}
 _MUTATORS = {"append", "pop", "insert", "remove", "clear", "extend", "sort", "reverse", "update", "add", "discard", "setdefault", "popitem"}
 
 
@@ -487,11 +521,24 @@ def _events(stmts, loop=()):
                 out.append(("use", n.id, loop))
         for n in ast.walk(e):
             if isinstance(n, ast.Call) and isinstance(n.func, ast.Attribute) and n.func.attr in _MUTATORS:
-                r = _root(n.func.value)
-                if r:
-                    out.append(("mut", r, loop))
+                # a container mutator changes the receiver object only
+                out.append(("estore", ast.unparse(n.func.value), loop))
+                continue
             elif isinstance(n, ast.NamedExpr):
                 out.append(("store", n.target.id, loop))
+            if isinstance(n, ast.Call) and not (isinstance(n.func, ast.Name) and n.func.id in _SAFE_CALLS):
+                # an opaque call: may rebind attributes of / mutate whatever it can reach: its receiver and its arguments
+                reach = set()
+                if isinstance(n.func, ast.Attribute):
+                    r = _root(n.func.value)
+                    if r:
+                        reach.add(r)
+                else:
+                    reach.add("<function>")
+                for a in list(n.args) + [k.value for k in n.keywords]:
+                    reach |= {x.id for x in ast.walk(a) if isinstance(x, ast.Name)}
+                for r in reach:
+                    out.append(("call", r, loop))
 
     def target(t):
         for n in ast.walk(t):
@@ -501,9 +548,10 @@ def _events(stmts, loop=()):
             for n in ast.walk(t):
                 if isinstance(n, ast.Name) and isinstance(n.ctx, ast.Load):
                     out.append(("use", n.id, loop))
-            r = _root(t)
-            if r:
-                out.append(("mut", r, loop))
+            if isinstance(t, ast.Attribute):
+                out.append(("pstore", ast.unparse(t), loop))          # rebinds the attribute path
+            else:
+                out.append(("estore", ast.unparse(t.value), loop))    # changes an element of the object at that path
         elif isinstance(t, (ast.Tuple, ast.List)):
             for x in t.elts:
                 if not isinstance(x, ast.Name):
@@ -571,7 +619,7 @@ def _events(stmts, loop=()):
     return out
 
 
-def _fold_aliases(fn):
+def _fold_aliases(fn, stable_ok=True):
     """substitute back locals that are assigned once from an attribute path, a pure builtin test or an element read, when nothing the
     value depends on changes between the definition and its last use"""
     n_done = 0
@@ -620,25 +668,57 @@ def _fold_aliases(fn):
                         if x is not fn and isinstance(x, (ast.FunctionDef, ast.AsyncFunctionDef, ast.Lambda, ast.ClassDef)):
                             nested |= {id(y) for y in ast.walk(x)}
                     if kind and loads and all(id(x) in later for x in loads) and not any(id(x) in nested for x in loads):
+                        deps = {n.id for n in ast.walk(st.value) if isinstance(n, ast.Name)} - _SAFE_CALLS
+                        type_test = isinstance(st.value, ast.Call) and st.value.func.id in ("isinstance", "issubclass", "callable", "type")
                         path = _attr_path(st.value)
-                        if kind == "path" and not any(path == w or path.startswith(w + ".") for w in written_paths) \
-                                and stores.get(path.split(".")[0], 0) <= 2:
-                            ok = True
-                        if not ok:
-                            deps = {n.id for n in ast.walk(st.value) if isinstance(n, ast.Name)} - _PURE_FUNCS
-                            evs = _events(blk[i + 1:])
-                            bad = False
-                            interfered = False
-                            loops_with_interference = set()
-                            for k, nm, lp in evs:
-                                if k in ("store", "mut") and nm in deps:
-                                    interfered = True
-                                    loops_with_interference |= set(lp)
-                                elif k == "use" and nm == v and interfered:
-                                    bad = True
-                            if not bad and loops_with_interference:
-                                bad = any(k == "use" and nm == v and set(lp) & loops_with_interference for k, nm, lp in evs)
-                            ok = not bad
+                        local_names = set(stores)
+                        evs = _events(blk[i + 1:])
+                        bad = False
+                        interfered = False
+                        loops_with_interference = set()
+                        # what the value was read from: the path itself (attribute alias) or the container (len / element read)
+                        if path is not None:
+                            src_path = path
+                        elif isinstance(st.value, ast.Subscript):
+                            src_path = ast.unparse(st.value.value)
+                        elif isinstance(st.value, ast.Call) and st.value.args:
+                            src_path = ast.unparse(st.value.args[0])
+                        else:
+                            src_path = None
+                        root = src_path.split(".")[0].split("[")[0] if src_path else None
+                        # every attribute path / container the value reads (the index expression of an element read counts too)
+                        val_paths = {ast.unparse(x) for x in ast.walk(st.value) if isinstance(x, ast.Attribute)}
+                        val_conts = {ast.unparse(x.value) for x in ast.walk(st.value) if isinstance(x, ast.Subscript)}
+                        if isinstance(st.value, ast.Call) and st.value.args:
+                            val_conts.add(ast.unparse(st.value.args[0]))
+                        for k, nm, lp in evs:
+                            hit = False
+                            if k == "store" and nm in deps:
+                                hit = True
+                            elif type_test:
+                                pass
+                            elif k == "pstore" and any(vp == nm or vp.startswith(nm + ".") or vp.startswith(nm + "[") for vp in val_paths):
+                                hit = True          # a path the value reads (or a prefix of it) is rebound
+                            elif k == "estore" and any(nm == vc or vc.startswith(nm + "[") for vc in val_conts):
+                                hit = True          # a container whose length / element was read is changed
+                            elif k == "call" and stable_ok and path is not None and path.count(".") == 1 and path.split(".")[1] in _STABLE:
+                                pass                # the attribute is assigned in __init__ only: no call can rebind it
+                            elif k == "call":
+                                # an opaque call that can reach the object the value was read from may rebind / mutate it;
+                                # a plain function can reach what is not local to this function (globals, class attributes)
+                                if nm == root or (nm in deps) or (nm == "<function>" and root is not None and root not in local_names):
+                                    hit = True
+                            if hit:
+                                interfered = True
+                                loops_with_interference |= set(lp)
+                            elif k == "use" and nm == v and interfered:
+                                bad = True
+                        if not bad and loops_with_interference:
+                            bad = any(k == "use" and nm == v and set(lp) & loops_with_interference for k, nm, lp in evs)
+                        if path is not None and any(path == w or path.startswith(w + ".") for w in written_paths):
+                            # the attribute is assigned in this very function (save/restore idiom): only when nothing at all intervenes
+                            bad = bad or any(k in ("call", "pstore", "estore") for k, nm, lp in evs[:max([j for j, e in enumerate(evs) if e[0] == "use" and e[1] == v] + [0]) + 1])
+                        ok = not bad
                     if ok:
                         sub = _Sub({v: st.value})
                         for j in range(i + 1, len(blk)):
@@ -733,10 +813,11 @@ def normalise(tree, cnt):
     if n_inl:
         _FoldConst().visit(tree)
     n_al = n_en = 0
+    stable_ok = not _has_dynamic_setattr(tree)
     for fn in ast.walk(tree):
         if isinstance(fn, (ast.FunctionDef, ast.AsyncFunctionDef)):
             n_en += _unenumerate(fn)
-            n_al += _fold_aliases(fn)
+            n_al += _fold_aliases(fn, stable_ok)
     ast.fix_missing_locations(tree)
     _renumber(tree)
     return n_inl, n_al, n_en
